@@ -92,6 +92,7 @@ func runC15(c *Ctx) {
 		expect := vh.Ok(resp.List[1:]...)
 		class := fmt.Sprintf("codec/%s/%s/%s/opt%v", cfg.Key(), colCountClass(nc), t.typeKeys(), len(t.optional) > 0)
 		c.R.Count(class)
+		c.R.Dist[cfg.PadKey()]++
 		if k%40 == 0 {
 			c.R.Sample(vh.Sprintf("table map: cfg=%s cols=%d id=%d event=%d bytes", cfg, nc, t.id, len(ev)))
 		}
@@ -177,7 +178,7 @@ func runAttribution(c *Ctx) {
 	r := c.Rng
 	nh := c.N(25, 500)
 	for hi := 0; hi < nh; hi++ {
-		cfg := baseCfgs[r.Intn(len(baseCfgs))]
+		cfg := baseCfg(r, r.Intn(len(baseCfgs)))
 		o := histOpts{units: 3 + r.Intn(6), maxCols: 3, maxRows: 2, rotations: hi%4 == 0, ignorables: false,
 			kindsOnly: []string{"txXid", "txCommit", "autoRows", "ddl", "txRollback"}}
 		h := genHistory(r, cfg, o)
